@@ -38,6 +38,14 @@ class UnlistedKE(Unlisted, KeyError):
 UNLISTED = [UnlistedT, UnlistedV, UnlistedK, UnlistedKE, Unlisted]      # what a custom function might plausibly raise
 
 
+def schema_for(d, name):
+    """{"format": name}, written directly (drafts 3, 6) or reached through a reference (drafts 4, 7): what the format
+    function does -- also an exception it lets escape -- must come through a reference untouched"""
+    if d in (4, 7):
+        return {"$ref": "#/definitions/f", "definitions": {"f": {"format": name}}}
+    return {"format": name}
+
+
 def used_early(v):
     """a validator constructed before the registrations is also USED before them (on the probe strings)"""
     for warm in ["a@b", "ab", "1.2.3.4", "256.1.1.1", "2020-02-30", "", 1, None]:
@@ -118,8 +126,8 @@ def main(args):
             if key not in reused:
                 made = []
                 fc, raised = build_checker(js, ex["base"], ex["regs"], salt=d + len(reused),
-                                           before_regs=(lambda c: made.append(used_early(cls[d]({"format": ex["name"]}, format_checker=c)))) if ex["early"] else None)
-                v = made[0] if ex["early"] else cls[d]({"format": ex["name"]}, format_checker=fc)
+                                           before_regs=(lambda c: made.append(used_early(cls[d](schema_for(d, ex["name"]), format_checker=c)))) if ex["early"] else None)
+                v = made[0] if ex["early"] else cls[d](schema_for(d, ex["name"]), format_checker=fc)
                 for warm in [INST["int"], INST["true"], INST["float"], INST["null"], "a@b", "ab", [1], {"a": 1}]:
                     try:
                         v.is_valid(warm)
